@@ -311,6 +311,9 @@ func (c09) Gen(r *kern.Rng, tier string, idx int) *Trace {
 		}
 		fl = append(fl, f)
 	}
+	if len(fl) > 0 && r.Pct(25) {
+		fl = append(fl, fl[r.Intn(len(fl))]) // two Flushes at the same data position
+	}
 	sortInts(fl)
 	sc.Ops = opsWithFlushAt(r, total, fl, true)
 	w2 := *sc
